@@ -6,7 +6,7 @@ namespace Mjw.Discipline
 
 inductive IdxClass where
   | w                      -- leading index is the world id
-  | wmod (param : String)  -- leading index is `worldid % param.shape[0]`
+  | wmod (param : Nat)     -- leading index is `worldid % param.shape[0]` (param = interned name id)
   | tid                    -- a non-world thread id component
   | const
   | other
@@ -26,15 +26,20 @@ inductive FClass where
   | unbound | unknown
   deriving DecidableEq, Repr
 
+/-- names are interned: `kernel`, `param`, `idx`, `op` are indices into `Gen.Graph.names` (kernel reduction on
+    natural-number literals is fast; on strings it is not) -/
 structure Access where
-  kernel : String
-  param : String
-  field : String
+  modul : Nat      -- index into `Gen.Graph.moduleNames`
+  kernel : Nat
+  param : Nat
+  field : Nat
   ndim : Nat
   idx0 : IdxClass
   rw : RW
   fclass : FClass
   line : Nat
+  idx : Nat        -- full index expression text (interned)
+  op : Nat         -- atomic operation name (interned) or the id of ""
   deriving DecidableEq, Repr
 
 /-- the per-row discipline: a batched Model field is read at `worldid % its own shape[0]` and never written by
@@ -47,5 +52,33 @@ def Access.ok (a : Access) : Bool :=
   | _ => true
 
 def violations (rows : List Access) : List Access := rows.filter (fun a => !a.ok)
+
+/-- distinct (kernel, param) pairs -/
+def keys (rows : List Access) : List (Nat × Nat) := (rows.map (fun a => (a.kernel, a.param))).eraseDups
+
+/-- rows of one kernel are contiguous in the generated table -/
+def groups (rows : List Access) : List (List Access) := rows.splitBy (fun a b => a.kernel == b.kernel)
+
+def raceInGroup (rs0 : List Access) : List (Nat × Nat) :=
+  (keys rs0).filter (fun k =>
+    let rs := rs0.filter (fun a => a.param == k.2)
+    let ws := (rs.filter (fun a => a.rw == .write)).map (·.idx)
+    let rd := (rs.filter (fun a => a.rw == .read)).map (·.idx)
+    let ats := rs.filter (fun a => a.rw == .atomic)
+    (!ws.isEmpty && rd.any (fun i => !ws.contains i)) || (!ats.isEmpty && (!ws.isEmpty || !rd.isEmpty)))
+
+/-- (kernel, param) pairs whose cells may be touched by more than one task of a launch in a way that depends on
+    order, judged syntactically: the parameter is plainly written and also read at a different index expression,
+    or is both atomically and plainly accessed.  Each entry needs a justification (thread-private cells, equal
+    values, level structure) or is a finding. -/
+def raceCandidates (rows : List Access) : List (Nat × Nat) := ((groups rows).flatMap raceInGroup).eraseDups
+
+def mixedInGroup (rs0 : List Access) : List (Nat × Nat) :=
+  (keys rs0).filter (fun k =>
+    let ops := ((rs0.filter (fun a => a.param == k.2 && a.rw == .atomic)).map (·.op)).eraseDups
+    ops.length > 1)
+
+/-- (kernel, param) pairs atomically updated with more than one kind of operation -/
+def mixedAtomics (rows : List Access) : List (Nat × Nat) := ((groups rows).flatMap mixedInGroup).eraseDups
 
 end Mjw.Discipline
